@@ -11,7 +11,7 @@ COMMON_NOTE = ('Trusted base: Lean 4.33 kernel (+ leanchecker in the thorough ti
                'with the real classes on identical exact-rational inputs). Floating-point rounding is not '
                'modelled: theorems are over Q / R, rounding inside computations is covered by the stated '
                'tolerances only. Every hand-written model additionally carries the theorem Cxx_source_transcribed: the '
-               'normalised source text of the functions it transcribes (103 functions, translator/tables.py: TRANSCRIBED) '
+               'normalised source text of the functions it transcribes (171 functions, translator/tables.py: TRANSCRIBED) '
                'is regenerated on every run and must equal the text the model was written from; when it does not, the '
                'tie is broken, the correspondence search runs with a 5x budget and the violation is reported with the '
                'failing input it finds, or with no-failing-input-found. ')
